@@ -204,6 +204,7 @@ class Engine:
                     continue
             deps = e.deps()
             miss = missing(deps, spec.get('src', []))
+            miss = self._rename_tolerant(fn, deps, spec.get('src', []), miss)
             cm = self._ctx_missing(e, spec.get('ctx'))
             allm = miss + cm
             if not allm:
@@ -227,6 +228,33 @@ class Engine:
             loc = best.loc()
         ck.ob(rule, oid, False, 'MISSING CHECK in %s: %s. %s' % (fn.qual, detail, spec.get('why', '')), loc)
         return None
+
+    def _rename_tolerant(self, fn, deps, src, miss):
+        """a source `p:<name>` whose name is no longer a parameter of the anchor (renamed parameter) is satisfied by the flow
+        of some parameter that the obligation does not otherwise mention - renaming a parameter is not an alarm"""
+        if not miss:
+            return miss
+        from .facts import pat_binds
+        pnames = set()
+        for p in fn.params:
+            for b in pat_binds(p):
+                pnames.add(b['n'])
+        mentioned = set()
+        for a in src:
+            for alt in a.split('|'):
+                if alt.startswith('p:'):
+                    mentioned.add(alt[2:].split('.')[0])
+        present = {x[2:].split('.')[0].replace('[]', '') for x in flow.flat(deps) if x.startswith('p:')}
+        spare = (present & pnames) - mentioned
+        out = []
+        for a in miss:
+            alts = a.split('|')
+            roots = [x[2:].split('.')[0] for x in alts if x.startswith('p:')]
+            if roots and len(roots) == len(alts) and all(r not in pnames for r in roots) and spare:
+                spare = set(list(spare)[1:])      # consume one unexplained parameter flow per renamed name
+                continue
+            out.append(a)
+        return out
 
     def _assign_names(self, e):
         if e.kind == 'let':
